@@ -26,6 +26,10 @@
 (*                      handshake_client_tls13.go processHelloRetryRequest *)
 (*                                     (MarshalClientHelloNoECH,           *)
 (*                                      hs.hello.original = Hello.Raw)     *)
+(*   BuildFails / StartFails           the same, MarshalClientHello fails: *)
+(*                                     the error is returned, Hello.Raw is *)
+(*                                     only assigned on success, Handshake *)
+(*                                     returns before clientHandshake      *)
 (*   ServerHRR / ServerHello           what the peer answers               *)
 (*   Finish / Fail      u_handshake_client.go clientHandshake: deferred    *)
 (*                                     copy of the private hello back into *)
@@ -59,7 +63,7 @@ VARIABLES cls,      \* "custom" (HelloCustom + ApplyPreset by the caller) or any
           wire,     \* ClientHellos put on the wire, in order
           sent,     \* Hello.Raw at the moment each of them was handed to the record layer
           hrrSeen,  \* a HelloRetryRequest arrived
-          phase     \* "edit" | "start" | "ch1" | "hrr" | "ch2" | "sh" | "done" | "failed"
+          phase     \* "edit" | "start" | "ch1" | "hrr" | "ch2" | "sh" | "done" | "failed" | "refused"
 bvars == <<cls, status, applied, omitSNI, pending, raw, rebuilt, wire, sent, hrrSeen, phase>>
 
 NoSer == [id |-> "", img |-> BadHello]
@@ -109,6 +113,9 @@ CNoSNI          == C("nosni", <<"nosni">>, 0, <<>>)
 CExt(t, body)   == C("ext", <<"ext", t>>, t, body)        \* exactly one extension of type t, with this body
 CNoExt(t)       == C("noext", <<"ext", t>>, t, <<>>)
 CFront(ts)      == C("front", <<"front">>, 0, ts)         \* the extension list starts with these types
+\* an edit after which the hello cannot be marshalled (what = <<"random">> for a client random of the wrong length: a later
+\* SetClientRandom repairs it)
+CUnbuildable(what) == C("unbuildable", what, 0, <<>>)
 Front(p)        == IF \E c \in p : c.kind = "front" THEN (CHOOSE c \in p : c.kind = "front").v ELSE <<>>
 Add(p, c)       == {x \in p : x.key # c.key} \cup {c}
 
@@ -124,6 +131,7 @@ Holds(c, img, p) ==
     [] c.kind = "ext"    -> Cardinality(ExtIdx(img, c.t)) = 1 /\ ExtBody(img, c.t) = c.v
     [] c.kind = "noext"  -> ~HasExtT(img, c.t)
     [] c.kind = "front"  -> Len(img.exts) >= Len(c.v) /\ SubSeq(ExtTypes(img), 1, Len(c.v)) = c.v
+    [] c.kind = "unbuildable" -> TRUE      \* not a statement about an image: see WillFail
     [] OTHER -> FALSE
 Broken(img, p) == {c \in p : ~Holds(c, img, p)}
 
@@ -138,6 +146,10 @@ Reapplies == status = "NotBuilt" /\ cls # "custom"
 Survives(c) == c.kind \in {"sni", "nosni"}
 Kept(p) == {c \in p : Survives(c)}
 
+\* The next buildHandshakeState returns an error from MarshalClientHello: a claimed edit made the hello unbuildable, or
+\* the preset itself is (class "pskstrict": a PSK parrot without a session and without Config.OmitEmptyPsk, ErrEmptyPsk).
+WillFail == cls = "pskstrict" \/ \E c \in (IF Reapplies THEN Kept(pending) ELSE pending) : c.kind = "unbuildable"
+
 \* the caller of a HelloCustom UConn applies a spec
 ApplyPreset ==
   /\ phase = "edit"
@@ -151,9 +163,16 @@ BuildCore(ls, ser) ==
   /\ status' = IF ls THEN "BuildByUtls" ELSE status     \* only a build that loads the session marks the hello as built
   /\ raw' = ser
 Build(ls, ser) ==
-  /\ phase = "edit"
+  /\ phase = "edit" /\ ~WillFail
   /\ BuildCore(ls, ser)
   /\ UNCHANGED <<cls, omitSNI, rebuilt, wire, sent, hrrSeen, phase>>
+
+\* buildHandshakeState returns the marshalling error: the preset may have been applied, Hello.Raw and the status stay
+BuildFails ==
+  /\ phase = "edit" /\ WillFail
+  /\ pending' = IF Reapplies THEN Kept(pending) ELSE pending
+  /\ applied' = (applied \/ cls # "custom")
+  /\ UNCHANGED <<cls, status, omitSNI, raw, rebuilt, wire, sent, hrrSeen, phase>>
 
 \* one documented edit; always: the edit does not live in Hello / Extensions (SetSNI, RemoveSNIExtension)
 Edit(c, always) ==
@@ -170,6 +189,9 @@ ExtInsert(t, body) == /\ phase = "edit"
                       /\ pending' = IF Protected THEN Add(Add(pending, CExt(t, body)), CFront(<<t>> \o Front(pending))) ELSE pending
                       /\ UNCHANGED <<cls, status, applied, omitSNI, raw, rebuilt, wire, sent, hrrSeen, phase>>
 ExtRemove(t)       == Edit(CNoExt(t), FALSE) /\ UNCHANGED omitSNI
+\* an edit of Hello / Extensions after which MarshalClientHello fails (two padding extensions, an extension whose Read
+\* fails, a PSK extension with a malformed binder or empty without OmitEmptyPsk, a client random of the wrong length)
+Break(what)        == Edit(CUnbuildable(what), FALSE) /\ UNCHANGED omitSNI
 \* the ServerName field of the SNIExtension object in UConn.Extensions assigned directly (found: the list has one)
 \* On a hello that is not protected the edit is not claimed, but it takes away what an earlier SetSNI claimed.
 ExtSNIField(norm, found) ==
@@ -182,10 +204,17 @@ ExtALPN(body, found) == IF found THEN Edit(CExt(16, body), FALSE) /\ UNCHANGED o
 
 \* Handshake: the internal rebuild; ser is Hello.Raw right after it
 StartHandshake(ser) ==
-  /\ phase = "edit"
+  /\ phase = "edit" /\ ~WillFail
   /\ BuildCore(TRUE, ser)
   /\ rebuilt' = ser /\ phase' = "start"
   /\ UNCHANGED <<cls, omitSNI, wire, sent, hrrSeen>>
+\* Handshake: the internal rebuild fails; Handshake returns its error, nothing is written, Hello.Raw stays (obs)
+StartFails(obs) ==
+  /\ phase = "edit" /\ WillFail
+  /\ pending' = IF Reapplies THEN Kept(pending) ELSE pending
+  /\ applied' = (applied \/ cls # "custom")
+  /\ raw' = obs /\ phase' = "refused"
+  /\ UNCHANGED <<cls, status, omitSNI, rebuilt, wire, sent, hrrSeen>>
 \* the first handshake record: w is what went to the transport, ser is Hello.Raw at that moment
 SendCH1(ser, w) ==
   /\ phase = "start"
@@ -222,5 +251,8 @@ WireIsRaw == /\ \A k \in DOMAIN wire : wire[k].id = sent[k].id
 \* ... every claimed edit is reflected in those bytes ...
 EditsVisible == phase \notin {"edit"} /\ rebuilt # NoSer => Broken(rebuilt.img, pending) = {}
 \* ... and after the handshake Hello.Raw is the last ClientHello sent (the second one after a HelloRetryRequest)
+\* a hello that cannot be rebuilt is never sent: the handshake is refused before anything reaches the transport
+\* (StartHandshake is not enabled then; a refused handshake has sent nothing and has no rebuilt hello)
+NothingSentWhenRefused == phase = "refused" => (wire = <<>> /\ rebuilt = NoSer)
 RawIsLastSent == phase = "done" => (Len(wire) >= 1 /\ raw.id = wire[Len(wire)].id /\ (hrrSeen => Len(wire) = 2))
 =============================================================================
